@@ -3,6 +3,8 @@ import BlockCiphers.Proofs.AesNiBytes
 import BlockCiphers.Proofs.AesNiPar
 import BlockCiphers.Proofs.AesSboxTable
 import BlockCiphers.Proofs.AesFixslice
+import BlockCiphers.Proofs.GenFuncsFs64
+import BlockCiphers.Proofs.GenFuncsFs32
 /-
 C02 — AES types compute FIPS-197 under every backend and key size
 GENERATED statement file (tools/gen_thm.py): every theorem below restates, verbatim, a theorem of a Proofs/ module
@@ -11,6 +13,386 @@ AES-NI model = FIPS-197 (Spec/Aes.lean: computed S-box, MixColumns as the matrix
 all blocks, both directions, incl. the 9-lane parallel form; fixslice64 and fixslice32, normal and compact = FIPS-197 likewise (soft_conforms_N).
 ARMv8: not modelled (no aarch64 execution environment; DESIGN §4.4).
 -/
+
+namespace BC.GenFuncs.AesFs64
+open BC.Gen.Fn
+open BC.AesFs64 in
+theorem C02.src_fs64_sub_bytes_eq (s : BC.AesFs64.St) :
+    fs64_sub_bytes s.s0 s.s1 s.s2 s.s3 s.s4 s.s5 s.s6 s.s7 = tup (BC.AesFs64.sub_bytes s) :=
+  _root_.BC.GenFuncs.AesFs64.sub_bytes_eq s
+end BC.GenFuncs.AesFs64
+
+namespace BC.GenFuncs.AesFs64
+open BC.Gen.Fn
+theorem C02.src_fs64_inv_sub_bytes_eq (s : BC.AesFs64.St) :
+    fs64_inv_sub_bytes s.s0 s.s1 s.s2 s.s3 s.s4 s.s5 s.s6 s.s7 = tup (BC.AesFs64.inv_sub_bytes s) :=
+  _root_.BC.GenFuncs.AesFs64.inv_sub_bytes_eq s
+end BC.GenFuncs.AesFs64
+
+namespace BC.GenFuncs.AesFs64
+open BC.Gen.Fn
+theorem C02.src_fs64_sub_bytes_nots_eq (s : BC.AesFs64.St) :
+    fs64_sub_bytes_nots s.s0 s.s1 s.s2 s.s3 s.s4 s.s5 s.s6 s.s7 = tup (BC.AesFs64.sub_bytes_nots s) :=
+  _root_.BC.GenFuncs.AesFs64.sub_bytes_nots_eq s
+end BC.GenFuncs.AesFs64
+
+namespace BC.GenFuncs.AesFs64
+open BC.Gen.Fn
+theorem C02.src_fs64_shift_rows_1_eq (s : BC.AesFs64.St) :
+    fs64_shift_rows_1 s.s0 s.s1 s.s2 s.s3 s.s4 s.s5 s.s6 s.s7 = tup (BC.AesFs64.shift_rows_1 s) :=
+  _root_.BC.GenFuncs.AesFs64.shift_rows_1_eq s
+end BC.GenFuncs.AesFs64
+
+namespace BC.GenFuncs.AesFs64
+open BC.Gen.Fn
+theorem C02.src_fs64_inv_shift_rows_1_eq (s : BC.AesFs64.St) :
+    fs64_inv_shift_rows_1 s.s0 s.s1 s.s2 s.s3 s.s4 s.s5 s.s6 s.s7 = tup (BC.AesFs64.inv_shift_rows_1 s) :=
+  _root_.BC.GenFuncs.AesFs64.inv_shift_rows_1_eq s
+end BC.GenFuncs.AesFs64
+
+namespace BC.GenFuncs.AesFs64
+open BC.Gen.Fn
+theorem C02.src_fs64_shift_rows_2_eq (s : BC.AesFs64.St) :
+    fs64_shift_rows_2 s.s0 s.s1 s.s2 s.s3 s.s4 s.s5 s.s6 s.s7 = tup (BC.AesFs64.shift_rows_2 s) :=
+  _root_.BC.GenFuncs.AesFs64.shift_rows_2_eq s
+end BC.GenFuncs.AesFs64
+
+namespace BC.GenFuncs.AesFs64
+open BC.Gen.Fn
+theorem C02.src_fs64_inv_shift_rows_2_eq (s : BC.AesFs64.St) :
+    fs64_inv_shift_rows_2 s.s0 s.s1 s.s2 s.s3 s.s4 s.s5 s.s6 s.s7 = tup (BC.AesFs64.inv_shift_rows_2 s) :=
+  _root_.BC.GenFuncs.AesFs64.inv_shift_rows_2_eq s
+end BC.GenFuncs.AesFs64
+
+namespace BC.GenFuncs.AesFs64
+open BC.Gen.Fn
+theorem C02.src_fs64_shift_rows_3_eq (s : BC.AesFs64.St) :
+    fs64_shift_rows_3 s.s0 s.s1 s.s2 s.s3 s.s4 s.s5 s.s6 s.s7 = tup (BC.AesFs64.shift_rows_3 s) :=
+  _root_.BC.GenFuncs.AesFs64.shift_rows_3_eq s
+end BC.GenFuncs.AesFs64
+
+namespace BC.GenFuncs.AesFs64
+open BC.Gen.Fn
+theorem C02.src_fs64_inv_shift_rows_3_eq (s : BC.AesFs64.St) :
+    fs64_inv_shift_rows_3 s.s0 s.s1 s.s2 s.s3 s.s4 s.s5 s.s6 s.s7 = tup (BC.AesFs64.inv_shift_rows_3 s) :=
+  _root_.BC.GenFuncs.AesFs64.inv_shift_rows_3_eq s
+end BC.GenFuncs.AesFs64
+
+namespace BC.GenFuncs.AesFs64
+open BC.Gen.Fn
+theorem C02.src_fs64_mix_columns_0_eq (s : BC.AesFs64.St) :
+    fs64_mix_columns_0 s.s0 s.s1 s.s2 s.s3 s.s4 s.s5 s.s6 s.s7 = tup (BC.AesFs64.mix_columns_0 s) :=
+  _root_.BC.GenFuncs.AesFs64.mix_columns_0_eq s
+end BC.GenFuncs.AesFs64
+
+namespace BC.GenFuncs.AesFs64
+open BC.Gen.Fn
+theorem C02.src_fs64_inv_mix_columns_0_eq (s : BC.AesFs64.St) :
+    fs64_inv_mix_columns_0 s.s0 s.s1 s.s2 s.s3 s.s4 s.s5 s.s6 s.s7 = tup (BC.AesFs64.inv_mix_columns_0 s) :=
+  _root_.BC.GenFuncs.AesFs64.inv_mix_columns_0_eq s
+end BC.GenFuncs.AesFs64
+
+namespace BC.GenFuncs.AesFs64
+open BC.Gen.Fn
+theorem C02.src_fs64_mix_columns_1_eq (s : BC.AesFs64.St) :
+    fs64_mix_columns_1 s.s0 s.s1 s.s2 s.s3 s.s4 s.s5 s.s6 s.s7 = tup (BC.AesFs64.mix_columns_1 s) :=
+  _root_.BC.GenFuncs.AesFs64.mix_columns_1_eq s
+end BC.GenFuncs.AesFs64
+
+namespace BC.GenFuncs.AesFs64
+open BC.Gen.Fn
+theorem C02.src_fs64_inv_mix_columns_1_eq (s : BC.AesFs64.St) :
+    fs64_inv_mix_columns_1 s.s0 s.s1 s.s2 s.s3 s.s4 s.s5 s.s6 s.s7 = tup (BC.AesFs64.inv_mix_columns_1 s) :=
+  _root_.BC.GenFuncs.AesFs64.inv_mix_columns_1_eq s
+end BC.GenFuncs.AesFs64
+
+namespace BC.GenFuncs.AesFs64
+open BC.Gen.Fn
+theorem C02.src_fs64_mix_columns_2_eq (s : BC.AesFs64.St) :
+    fs64_mix_columns_2 s.s0 s.s1 s.s2 s.s3 s.s4 s.s5 s.s6 s.s7 = tup (BC.AesFs64.mix_columns_2 s) :=
+  _root_.BC.GenFuncs.AesFs64.mix_columns_2_eq s
+end BC.GenFuncs.AesFs64
+
+namespace BC.GenFuncs.AesFs64
+open BC.Gen.Fn
+theorem C02.src_fs64_inv_mix_columns_2_eq (s : BC.AesFs64.St) :
+    fs64_inv_mix_columns_2 s.s0 s.s1 s.s2 s.s3 s.s4 s.s5 s.s6 s.s7 = tup (BC.AesFs64.inv_mix_columns_2 s) :=
+  _root_.BC.GenFuncs.AesFs64.inv_mix_columns_2_eq s
+end BC.GenFuncs.AesFs64
+
+namespace BC.GenFuncs.AesFs64
+open BC.Gen.Fn
+theorem C02.src_fs64_mix_columns_3_eq (s : BC.AesFs64.St) :
+    fs64_mix_columns_3 s.s0 s.s1 s.s2 s.s3 s.s4 s.s5 s.s6 s.s7 = tup (BC.AesFs64.mix_columns_3 s) :=
+  _root_.BC.GenFuncs.AesFs64.mix_columns_3_eq s
+end BC.GenFuncs.AesFs64
+
+namespace BC.GenFuncs.AesFs64
+open BC.Gen.Fn
+theorem C02.src_fs64_inv_mix_columns_3_eq (s : BC.AesFs64.St) :
+    fs64_inv_mix_columns_3 s.s0 s.s1 s.s2 s.s3 s.s4 s.s5 s.s6 s.s7 = tup (BC.AesFs64.inv_mix_columns_3 s) :=
+  _root_.BC.GenFuncs.AesFs64.inv_mix_columns_3_eq s
+end BC.GenFuncs.AesFs64
+
+namespace BC.GenFuncs.AesFs64
+open BC.Gen.Fn
+theorem C02.src_fs64_add_round_key_eq (s k : BC.AesFs64.St) :
+    fs64_add_round_key s.s0 s.s1 s.s2 s.s3 s.s4 s.s5 s.s6 s.s7 k.s0 k.s1 k.s2 k.s3 k.s4 k.s5 k.s6 k.s7 = tup (BC.AesFs64.add_round_key s k) :=
+  _root_.BC.GenFuncs.AesFs64.add_round_key_eq s k
+end BC.GenFuncs.AesFs64
+
+namespace BC.GenFuncs.AesFs64
+open BC.Gen.Fn
+theorem C02.src_fs64_rotate_rows_1_eq (x : BitVec 64) :
+    fs64_rotate_rows_1 x = BC.AesFs64.rotate_rows_1 x :=
+  _root_.BC.GenFuncs.AesFs64.rotate_rows_1_eq x
+end BC.GenFuncs.AesFs64
+
+namespace BC.GenFuncs.AesFs64
+open BC.Gen.Fn
+theorem C02.src_fs64_rotate_rows_2_eq (x : BitVec 64) :
+    fs64_rotate_rows_2 x = BC.AesFs64.rotate_rows_2 x :=
+  _root_.BC.GenFuncs.AesFs64.rotate_rows_2_eq x
+end BC.GenFuncs.AesFs64
+
+namespace BC.GenFuncs.AesFs64
+open BC.Gen.Fn
+theorem C02.src_fs64_rotate_rows_and_columns_1_1_eq (x : BitVec 64) :
+    fs64_rotate_rows_and_columns_1_1 x = BC.AesFs64.rotate_rows_and_columns_1_1 x :=
+  _root_.BC.GenFuncs.AesFs64.rotate_rows_and_columns_1_1_eq x
+end BC.GenFuncs.AesFs64
+
+namespace BC.GenFuncs.AesFs64
+open BC.Gen.Fn
+theorem C02.src_fs64_rotate_rows_and_columns_1_2_eq (x : BitVec 64) :
+    fs64_rotate_rows_and_columns_1_2 x = BC.AesFs64.rotate_rows_and_columns_1_2 x :=
+  _root_.BC.GenFuncs.AesFs64.rotate_rows_and_columns_1_2_eq x
+end BC.GenFuncs.AesFs64
+
+namespace BC.GenFuncs.AesFs64
+open BC.Gen.Fn
+theorem C02.src_fs64_rotate_rows_and_columns_1_3_eq (x : BitVec 64) :
+    fs64_rotate_rows_and_columns_1_3 x = BC.AesFs64.rotate_rows_and_columns_1_3 x :=
+  _root_.BC.GenFuncs.AesFs64.rotate_rows_and_columns_1_3_eq x
+end BC.GenFuncs.AesFs64
+
+namespace BC.GenFuncs.AesFs64
+open BC.Gen.Fn
+theorem C02.src_fs64_rotate_rows_and_columns_2_2_eq (x : BitVec 64) :
+    fs64_rotate_rows_and_columns_2_2 x = BC.AesFs64.rotate_rows_and_columns_2_2 x :=
+  _root_.BC.GenFuncs.AesFs64.rotate_rows_and_columns_2_2_eq x
+end BC.GenFuncs.AesFs64
+
+namespace BC.GenFuncs.AesFs64
+open BC.Gen.Fn
+theorem C02.src_fs64_delta_swap_1_eq (a : BitVec 64) (sh : BitVec 32) (m : BitVec 64) :
+    fs64_delta_swap_1 a sh m = BC.AesFs64.delta_swap_1 a sh.toNat m :=
+  _root_.BC.GenFuncs.AesFs64.delta_swap_1_eq a sh m
+end BC.GenFuncs.AesFs64
+
+namespace BC.GenFuncs.AesFs64
+open BC.Gen.Fn
+theorem C02.src_fs64_delta_swap_2_eq (a b : BitVec 64) (sh : BitVec 32) (m : BitVec 64) :
+    fs64_delta_swap_2 a b sh m = ((BC.AesFs64.delta_swap_2 a b sh.toNat m).a, (BC.AesFs64.delta_swap_2 a b sh.toNat m).b) :=
+  _root_.BC.GenFuncs.AesFs64.delta_swap_2_eq a b sh m
+end BC.GenFuncs.AesFs64
+
+namespace BC.GenFuncs.AesFs64
+open BC.Gen.Fn
+theorem C02.src_fs64_bitslice_eq (i0 i1 i2 i3 : BitVec 128) :
+    fs64_bitslice i0 i1 i2 i3 = tup (BC.AesFs64.bitslice i0 i1 i2 i3) :=
+  _root_.BC.GenFuncs.AesFs64.bitslice_eq i0 i1 i2 i3
+end BC.GenFuncs.AesFs64
+
+namespace BC.GenFuncs.AesFs32
+open BC.Gen.Fn
+open BC.AesFs32 in
+theorem C02.src_fs32_sub_bytes_eq (s : BC.AesFs32.St) :
+    fs32_sub_bytes s.s0 s.s1 s.s2 s.s3 s.s4 s.s5 s.s6 s.s7 = tup (BC.AesFs32.sub_bytes s) :=
+  _root_.BC.GenFuncs.AesFs32.sub_bytes_eq s
+end BC.GenFuncs.AesFs32
+
+namespace BC.GenFuncs.AesFs32
+open BC.Gen.Fn
+theorem C02.src_fs32_inv_sub_bytes_eq (s : BC.AesFs32.St) :
+    fs32_inv_sub_bytes s.s0 s.s1 s.s2 s.s3 s.s4 s.s5 s.s6 s.s7 = tup (BC.AesFs32.inv_sub_bytes s) :=
+  _root_.BC.GenFuncs.AesFs32.inv_sub_bytes_eq s
+end BC.GenFuncs.AesFs32
+
+namespace BC.GenFuncs.AesFs32
+open BC.Gen.Fn
+theorem C02.src_fs32_sub_bytes_nots_eq (s : BC.AesFs32.St) :
+    fs32_sub_bytes_nots s.s0 s.s1 s.s2 s.s3 s.s4 s.s5 s.s6 s.s7 = tup (BC.AesFs32.sub_bytes_nots s) :=
+  _root_.BC.GenFuncs.AesFs32.sub_bytes_nots_eq s
+end BC.GenFuncs.AesFs32
+
+namespace BC.GenFuncs.AesFs32
+open BC.Gen.Fn
+theorem C02.src_fs32_shift_rows_1_eq (s : BC.AesFs32.St) :
+    fs32_shift_rows_1 s.s0 s.s1 s.s2 s.s3 s.s4 s.s5 s.s6 s.s7 = tup (BC.AesFs32.shift_rows_1 s) :=
+  _root_.BC.GenFuncs.AesFs32.shift_rows_1_eq s
+end BC.GenFuncs.AesFs32
+
+namespace BC.GenFuncs.AesFs32
+open BC.Gen.Fn
+theorem C02.src_fs32_inv_shift_rows_1_eq (s : BC.AesFs32.St) :
+    fs32_inv_shift_rows_1 s.s0 s.s1 s.s2 s.s3 s.s4 s.s5 s.s6 s.s7 = tup (BC.AesFs32.inv_shift_rows_1 s) :=
+  _root_.BC.GenFuncs.AesFs32.inv_shift_rows_1_eq s
+end BC.GenFuncs.AesFs32
+
+namespace BC.GenFuncs.AesFs32
+open BC.Gen.Fn
+theorem C02.src_fs32_shift_rows_2_eq (s : BC.AesFs32.St) :
+    fs32_shift_rows_2 s.s0 s.s1 s.s2 s.s3 s.s4 s.s5 s.s6 s.s7 = tup (BC.AesFs32.shift_rows_2 s) :=
+  _root_.BC.GenFuncs.AesFs32.shift_rows_2_eq s
+end BC.GenFuncs.AesFs32
+
+namespace BC.GenFuncs.AesFs32
+open BC.Gen.Fn
+theorem C02.src_fs32_inv_shift_rows_2_eq (s : BC.AesFs32.St) :
+    fs32_inv_shift_rows_2 s.s0 s.s1 s.s2 s.s3 s.s4 s.s5 s.s6 s.s7 = tup (BC.AesFs32.inv_shift_rows_2 s) :=
+  _root_.BC.GenFuncs.AesFs32.inv_shift_rows_2_eq s
+end BC.GenFuncs.AesFs32
+
+namespace BC.GenFuncs.AesFs32
+open BC.Gen.Fn
+theorem C02.src_fs32_shift_rows_3_eq (s : BC.AesFs32.St) :
+    fs32_shift_rows_3 s.s0 s.s1 s.s2 s.s3 s.s4 s.s5 s.s6 s.s7 = tup (BC.AesFs32.shift_rows_3 s) :=
+  _root_.BC.GenFuncs.AesFs32.shift_rows_3_eq s
+end BC.GenFuncs.AesFs32
+
+namespace BC.GenFuncs.AesFs32
+open BC.Gen.Fn
+theorem C02.src_fs32_inv_shift_rows_3_eq (s : BC.AesFs32.St) :
+    fs32_inv_shift_rows_3 s.s0 s.s1 s.s2 s.s3 s.s4 s.s5 s.s6 s.s7 = tup (BC.AesFs32.inv_shift_rows_3 s) :=
+  _root_.BC.GenFuncs.AesFs32.inv_shift_rows_3_eq s
+end BC.GenFuncs.AesFs32
+
+namespace BC.GenFuncs.AesFs32
+open BC.Gen.Fn
+theorem C02.src_fs32_mix_columns_0_eq (s : BC.AesFs32.St) :
+    fs32_mix_columns_0 s.s0 s.s1 s.s2 s.s3 s.s4 s.s5 s.s6 s.s7 = tup (BC.AesFs32.mix_columns_0 s) :=
+  _root_.BC.GenFuncs.AesFs32.mix_columns_0_eq s
+end BC.GenFuncs.AesFs32
+
+namespace BC.GenFuncs.AesFs32
+open BC.Gen.Fn
+theorem C02.src_fs32_inv_mix_columns_0_eq (s : BC.AesFs32.St) :
+    fs32_inv_mix_columns_0 s.s0 s.s1 s.s2 s.s3 s.s4 s.s5 s.s6 s.s7 = tup (BC.AesFs32.inv_mix_columns_0 s) :=
+  _root_.BC.GenFuncs.AesFs32.inv_mix_columns_0_eq s
+end BC.GenFuncs.AesFs32
+
+namespace BC.GenFuncs.AesFs32
+open BC.Gen.Fn
+theorem C02.src_fs32_mix_columns_1_eq (s : BC.AesFs32.St) :
+    fs32_mix_columns_1 s.s0 s.s1 s.s2 s.s3 s.s4 s.s5 s.s6 s.s7 = tup (BC.AesFs32.mix_columns_1 s) :=
+  _root_.BC.GenFuncs.AesFs32.mix_columns_1_eq s
+end BC.GenFuncs.AesFs32
+
+namespace BC.GenFuncs.AesFs32
+open BC.Gen.Fn
+theorem C02.src_fs32_inv_mix_columns_1_eq (s : BC.AesFs32.St) :
+    fs32_inv_mix_columns_1 s.s0 s.s1 s.s2 s.s3 s.s4 s.s5 s.s6 s.s7 = tup (BC.AesFs32.inv_mix_columns_1 s) :=
+  _root_.BC.GenFuncs.AesFs32.inv_mix_columns_1_eq s
+end BC.GenFuncs.AesFs32
+
+namespace BC.GenFuncs.AesFs32
+open BC.Gen.Fn
+theorem C02.src_fs32_mix_columns_2_eq (s : BC.AesFs32.St) :
+    fs32_mix_columns_2 s.s0 s.s1 s.s2 s.s3 s.s4 s.s5 s.s6 s.s7 = tup (BC.AesFs32.mix_columns_2 s) :=
+  _root_.BC.GenFuncs.AesFs32.mix_columns_2_eq s
+end BC.GenFuncs.AesFs32
+
+namespace BC.GenFuncs.AesFs32
+open BC.Gen.Fn
+theorem C02.src_fs32_inv_mix_columns_2_eq (s : BC.AesFs32.St) :
+    fs32_inv_mix_columns_2 s.s0 s.s1 s.s2 s.s3 s.s4 s.s5 s.s6 s.s7 = tup (BC.AesFs32.inv_mix_columns_2 s) :=
+  _root_.BC.GenFuncs.AesFs32.inv_mix_columns_2_eq s
+end BC.GenFuncs.AesFs32
+
+namespace BC.GenFuncs.AesFs32
+open BC.Gen.Fn
+theorem C02.src_fs32_mix_columns_3_eq (s : BC.AesFs32.St) :
+    fs32_mix_columns_3 s.s0 s.s1 s.s2 s.s3 s.s4 s.s5 s.s6 s.s7 = tup (BC.AesFs32.mix_columns_3 s) :=
+  _root_.BC.GenFuncs.AesFs32.mix_columns_3_eq s
+end BC.GenFuncs.AesFs32
+
+namespace BC.GenFuncs.AesFs32
+open BC.Gen.Fn
+theorem C02.src_fs32_inv_mix_columns_3_eq (s : BC.AesFs32.St) :
+    fs32_inv_mix_columns_3 s.s0 s.s1 s.s2 s.s3 s.s4 s.s5 s.s6 s.s7 = tup (BC.AesFs32.inv_mix_columns_3 s) :=
+  _root_.BC.GenFuncs.AesFs32.inv_mix_columns_3_eq s
+end BC.GenFuncs.AesFs32
+
+namespace BC.GenFuncs.AesFs32
+open BC.Gen.Fn
+theorem C02.src_fs32_add_round_key_eq (s k : BC.AesFs32.St) :
+    fs32_add_round_key s.s0 s.s1 s.s2 s.s3 s.s4 s.s5 s.s6 s.s7 k.s0 k.s1 k.s2 k.s3 k.s4 k.s5 k.s6 k.s7 = tup (BC.AesFs32.add_round_key s k) :=
+  _root_.BC.GenFuncs.AesFs32.add_round_key_eq s k
+end BC.GenFuncs.AesFs32
+
+namespace BC.GenFuncs.AesFs32
+open BC.Gen.Fn
+theorem C02.src_fs32_rotate_rows_1_eq (x : BitVec 32) :
+    fs32_rotate_rows_1 x = BC.AesFs32.rotate_rows_1 x :=
+  _root_.BC.GenFuncs.AesFs32.rotate_rows_1_eq x
+end BC.GenFuncs.AesFs32
+
+namespace BC.GenFuncs.AesFs32
+open BC.Gen.Fn
+theorem C02.src_fs32_rotate_rows_2_eq (x : BitVec 32) :
+    fs32_rotate_rows_2 x = BC.AesFs32.rotate_rows_2 x :=
+  _root_.BC.GenFuncs.AesFs32.rotate_rows_2_eq x
+end BC.GenFuncs.AesFs32
+
+namespace BC.GenFuncs.AesFs32
+open BC.Gen.Fn
+theorem C02.src_fs32_rotate_rows_and_columns_1_1_eq (x : BitVec 32) :
+    fs32_rotate_rows_and_columns_1_1 x = BC.AesFs32.rotate_rows_and_columns_1_1 x :=
+  _root_.BC.GenFuncs.AesFs32.rotate_rows_and_columns_1_1_eq x
+end BC.GenFuncs.AesFs32
+
+namespace BC.GenFuncs.AesFs32
+open BC.Gen.Fn
+theorem C02.src_fs32_rotate_rows_and_columns_1_2_eq (x : BitVec 32) :
+    fs32_rotate_rows_and_columns_1_2 x = BC.AesFs32.rotate_rows_and_columns_1_2 x :=
+  _root_.BC.GenFuncs.AesFs32.rotate_rows_and_columns_1_2_eq x
+end BC.GenFuncs.AesFs32
+
+namespace BC.GenFuncs.AesFs32
+open BC.Gen.Fn
+theorem C02.src_fs32_rotate_rows_and_columns_1_3_eq (x : BitVec 32) :
+    fs32_rotate_rows_and_columns_1_3 x = BC.AesFs32.rotate_rows_and_columns_1_3 x :=
+  _root_.BC.GenFuncs.AesFs32.rotate_rows_and_columns_1_3_eq x
+end BC.GenFuncs.AesFs32
+
+namespace BC.GenFuncs.AesFs32
+open BC.Gen.Fn
+theorem C02.src_fs32_rotate_rows_and_columns_2_2_eq (x : BitVec 32) :
+    fs32_rotate_rows_and_columns_2_2 x = BC.AesFs32.rotate_rows_and_columns_2_2 x :=
+  _root_.BC.GenFuncs.AesFs32.rotate_rows_and_columns_2_2_eq x
+end BC.GenFuncs.AesFs32
+
+namespace BC.GenFuncs.AesFs32
+open BC.Gen.Fn
+theorem C02.src_fs32_delta_swap_1_eq (a : BitVec 32) (sh : BitVec 32) (m : BitVec 32) :
+    fs32_delta_swap_1 a sh m = BC.AesFs32.delta_swap_1 a sh.toNat m :=
+  _root_.BC.GenFuncs.AesFs32.delta_swap_1_eq a sh m
+end BC.GenFuncs.AesFs32
+
+namespace BC.GenFuncs.AesFs32
+open BC.Gen.Fn
+theorem C02.src_fs32_delta_swap_2_eq (a b : BitVec 32) (sh : BitVec 32) (m : BitVec 32) :
+    fs32_delta_swap_2 a b sh m = ((BC.AesFs32.delta_swap_2 a b sh.toNat m).a, (BC.AesFs32.delta_swap_2 a b sh.toNat m).b) :=
+  _root_.BC.GenFuncs.AesFs32.delta_swap_2_eq a b sh m
+end BC.GenFuncs.AesFs32
+
+namespace BC.GenFuncs.AesFs32
+open BC.Gen.Fn
+theorem C02.src_fs32_bitslice_eq (i0 i1 : BitVec 128) :
+    fs32_bitslice i0 i1 = tup (BC.AesFs32.bitslice i0 i1) :=
+  _root_.BC.GenFuncs.AesFs32.bitslice_eq i0 i1
+end BC.GenFuncs.AesFs32
 
 namespace BC.AesNi
 open BC BC.X86 BC.Spec.Aes
